@@ -368,58 +368,11 @@ func checkC17(p *Prog, r *Report) {
 	r.Rule("R17.4", "CandidatePair.priority is (2^32-1)*min(G,D) + 2*max(G,D) + (G>D ? 1 : 0) with operands widened to 64 bits before multiplying, and G is the controlling side's candidate priority (local iff this agent is controlling), so mirrored pairs get the same number on both agents.", 6)
 	pp := p.Fn("CandidatePair.priority")
 	if r.Anchor("CandidatePair.priority", pp != nil) {
-		kinds := map[*Func]string{}
-		for _, l := range pp.Lits {
-			t := p.NewTable(l)
-			t.Run()
-			sig := map[string]string{}
-			params := l.Type.Params
-			var px, py string
-			if params != nil {
-				var names []string
-				for _, f := range params.List {
-					for _, n := range f.Names {
-						names = append(names, p.varKey(p.ObjOf(n)))
-					}
-				}
-				if len(names) == 2 {
-					px, py = names[0], names[1]
-				}
-			}
-			okT := len(t.Problems) == 0
-			for _, pa := range t.Paths {
-				if len(pa.Hist) != 1 || pa.Hist[0].Atom.Kind != "ord" || len(pa.Results) != 1 {
-					okT = false
-					continue
-				}
-				a := pa.Hist[0].Atom
-				mask := pa.Hist[0].Val
-				if p.Canon(a.X) == py && p.Canon(a.Y) == px {
-					mask = flipMask(mask)
-				} else if !(p.Canon(a.X) == px && p.Canon(a.Y) == py) {
-					okT = false
-				}
-				res := pa.Results[0]
-				res = strings.ReplaceAll(res, px, "x")
-				res = strings.ReplaceAll(res, py, "y")
-				for _, m := range strings.Split(mask, "|") {
-					sig[m] = res
-				}
-			}
-			kind := "?"
-			u := func(s string) string { return "conv:uint64(" + s + ")" }
-			switch {
-			case !okT:
-			case sig["LT"] == u("x") && sig["GT"] == u("y") && (sig["EQ"] == u("x") || sig["EQ"] == u("y")):
-				kind = "min"
-			case sig["GT"] == u("x") && sig["LT"] == u("y") && (sig["EQ"] == u("x") || sig["EQ"] == u("y")):
-				kind = "max"
-			case (sig["GT"] == "1" || sig["GT"] == u("1")) && (sig["LT"] == "0" || sig["LT"] == u("0")) && (sig["EQ"] == "0" || sig["EQ"] == u("0")):
-				kind = "gt"
-			}
-			kinds[l] = kind
-			r.Check(kind != "?", "pair priority helper "+kind, p.Pos(l.Body.Pos()), "closure is "+kind+" over all orderings of its operands, result widened to uint64",
-				fmt.Sprintf("helper closure is neither min, max nor (x>y?1:0) with 64-bit results: LT->%s EQ->%s GT->%s", sig["LT"], sig["EQ"], sig["GT"]))
+		an := p.pairPriorityAnalysis(pp)
+		for _, h := range an.helpers {
+			kind := an.kinds[h]
+			r.Check(kind != "?", "pair priority helper "+kind, p.Pos(h.Body.Pos()), "helper is "+kind+" over all orderings of its operands, result widened to uint64",
+				"helper "+h.Name+" is neither min, max nor (x>y?1:0) with 64-bit results: "+an.sigs[h])
 		}
 		// the formula
 		walkBody(pp, func(n ast.Node) bool {
@@ -438,21 +391,15 @@ func checkC17(p *Prog, r *Report) {
 			argsOK := true
 			lf := p.Linear(rs.Results[0], func(e ast.Expr) string {
 				if c, ok := e.(*ast.CallExpr); ok {
-					if id, ok := unparen(c.Fun).(*ast.Ident); ok {
-						if o := p.ObjOf(id); o != nil {
-							if d, ok := p.SingleDef(pp, o); ok {
-								if lit, ok := unparen(d.Rhs).(*ast.FuncLit); ok {
-									if len(c.Args) != 2 || p.Canon(c.Args[0]) == p.Canon(c.Args[1]) {
-										argsOK = false
-									}
-									a0, a1 := "", ""
-									if len(c.Args) == 2 {
-										a0, a1 = identName(c.Args[0]), identName(c.Args[1])
-									}
-									return kinds[p.ByLit[lit]] + "(" + a0 + "," + a1 + ")"
-								}
-							}
+					if h := an.helperOf(c); h != nil {
+						if len(c.Args) != 2 || p.Canon(c.Args[0]) == p.Canon(c.Args[1]) {
+							argsOK = false
 						}
+						a0, a1 := "", ""
+						if len(c.Args) == 2 {
+							a0, a1 = an.roleName(c.Args[0]), an.roleName(c.Args[1])
+						}
+						return an.kinds[h] + "(" + a0 + "," + a1 + ")"
 					}
 				}
 				return p.Canon(e)
@@ -487,12 +434,16 @@ func checkC17(p *Prog, r *Report) {
 				return nil
 			}
 			id, ok := as.Lhs[0].(*ast.Ident)
-			if !ok || (id.Name != "g" && id.Name != "d") {
+			if !ok {
+				return nil
+			}
+			name := an.roleName(id)
+			if name != "g" && name != "d" {
 				return nil
 			}
 			c, ok := unparen(as.Rhs[0]).(*ast.CallExpr)
 			if !ok || !strings.HasSuffix(p.CalleeName(c), ".Priority") {
-				return []string{id.Name + "=?"}
+				return []string{name + "=?"}
 			}
 			sel, _ := unparen(c.Fun).(*ast.SelectorExpr)
 			side := "?"
@@ -504,7 +455,7 @@ func checkC17(p *Prog, r *Report) {
 					side = "remote"
 				}
 			}
-			return []string{id.Name + "=" + side}
+			return []string{name + "=" + side}
 		}
 		t.Run()
 		for _, pa := range t.Paths {
@@ -754,4 +705,144 @@ func (p *Prog) keyIsField(k ast.Expr, name string) bool {
 	}
 	v, ok := p.ObjOf(id).(*types.Var)
 	return ok && v.IsField() && p.FieldName(v) == name
+}
+
+// ppAnalysis: the pieces of CandidatePair.priority identified by what they
+// are: the comparison helpers (local closures or package-level functions,
+// classified over all orderings of their operands) and the two operands G and
+// D (the first and second argument of the "greater-than" helper).
+type ppAnalysis struct {
+	p       *Prog
+	pp      *Func
+	helpers []*Func
+	kinds   map[*Func]string
+	sigs    map[*Func]string
+	g, d    types.Object
+}
+
+func (an *ppAnalysis) helperOf(c *ast.CallExpr) *Func {
+	p := an.p
+	if id, ok := unparen(c.Fun).(*ast.Ident); ok {
+		if o := p.ObjOf(id); o != nil {
+			if d, ok := p.SingleDef(an.pp, o); ok && d.Rhs != nil {
+				if lit, ok := unparen(d.Rhs).(*ast.FuncLit); ok {
+					return p.ByLit[lit]
+				}
+			}
+		}
+	}
+	if o := p.Callee(c); o != nil {
+		if h := p.ByObj[o]; h != nil {
+			if _, known := an.kinds[h]; known {
+				return h
+			}
+		}
+	}
+	return nil
+}
+
+func (an *ppAnalysis) roleName(e ast.Expr) string {
+	if id, ok := unparen(e).(*ast.Ident); ok {
+		switch o := an.p.ObjOf(id); {
+		case o != nil && o == an.g:
+			return "g"
+		case o != nil && o == an.d:
+			return "d"
+		}
+		return id.Name + "?"
+	}
+	return "?"
+}
+
+func (p *Prog) classifyOrderHelper(l *Func) (kind, sigText string) {
+	t := p.NewTable(l)
+	t.Run()
+	sig := map[string]string{}
+	var px, py string
+	if l.Type.Params != nil {
+		var names []string
+		for _, f := range l.Type.Params.List {
+			for _, n := range f.Names {
+				names = append(names, p.varKey(p.ObjOf(n)))
+			}
+		}
+		if len(names) == 2 {
+			px, py = names[0], names[1]
+		}
+	}
+	okT := len(t.Problems) == 0 && px != ""
+	for _, pa := range t.Paths {
+		if len(pa.Hist) != 1 || pa.Hist[0].Atom.Kind != "ord" || len(pa.Results) != 1 {
+			okT = false
+			continue
+		}
+		a := pa.Hist[0].Atom
+		mask := pa.Hist[0].Val
+		if p.Canon(a.X) == py && p.Canon(a.Y) == px {
+			mask = flipMask(mask)
+		} else if !(p.Canon(a.X) == px && p.Canon(a.Y) == py) {
+			okT = false
+		}
+		res := pa.Results[0]
+		res = strings.ReplaceAll(res, px, "x")
+		res = strings.ReplaceAll(res, py, "y")
+		for _, m := range strings.Split(mask, "|") {
+			sig[m] = res
+		}
+	}
+	kind = "?"
+	u := func(s string) string { return "conv:uint64(" + s + ")" }
+	switch {
+	case !okT:
+	case sig["LT"] == u("x") && sig["GT"] == u("y") && (sig["EQ"] == u("x") || sig["EQ"] == u("y")):
+		kind = "min"
+	case sig["GT"] == u("x") && sig["LT"] == u("y") && (sig["EQ"] == u("x") || sig["EQ"] == u("y")):
+		kind = "max"
+	case (sig["GT"] == "1" || sig["GT"] == u("1")) && (sig["LT"] == "0" || sig["LT"] == u("0")) && (sig["EQ"] == "0" || sig["EQ"] == u("0")):
+		kind = "gt"
+	}
+	return kind, fmt.Sprintf("LT->%s EQ->%s GT->%s", sig["LT"], sig["EQ"], sig["GT"])
+}
+
+func (p *Prog) pairPriorityAnalysis(pp *Func) *ppAnalysis {
+	an := &ppAnalysis{p: p, pp: pp, kinds: map[*Func]string{}, sigs: map[*Func]string{}}
+	add := func(h *Func) {
+		if h == nil {
+			return
+		}
+		if _, dup := an.kinds[h]; dup {
+			return
+		}
+		an.kinds[h], an.sigs[h] = p.classifyOrderHelper(h)
+		an.helpers = append(an.helpers, h)
+	}
+	for _, l := range pp.Lits {
+		add(l)
+	}
+	// package-level two-operand helpers called from the formula
+	walkBody(pp, func(n ast.Node) bool {
+		if c, ok := n.(*ast.CallExpr); ok && len(c.Args) == 2 {
+			if o := p.Callee(c); o != nil {
+				if h := p.ByObj[o]; h != nil && h.Body != nil && h.Pkg == p.Ice && h.Decl != nil && h.Decl.Recv == nil {
+					add(h)
+				}
+			}
+		}
+		return true
+	})
+	// G and D: the operands of the greater-than helper
+	walkBody(pp, func(n ast.Node) bool {
+		if c, ok := n.(*ast.CallExpr); ok && len(c.Args) == 2 {
+			if h := an.helperOf(c); h != nil && an.kinds[h] == "gt" {
+				if a, ok := unparen(c.Args[0]).(*ast.Ident); ok {
+					an.g = p.ObjOf(a)
+				}
+				if b, ok := unparen(c.Args[1]).(*ast.Ident); ok {
+					an.d = p.ObjOf(b)
+				}
+			}
+		}
+		return true
+	})
+	return an
 }
